@@ -136,6 +136,8 @@ def iter_items(I, it):
         lst, start, ln = I.elems_of(sl)
         base_cell = Cell(Agg('view', lst))
         return [Ref(base_cell, (('f', start + i),)) for i in range(pos.v, ln)]
+    if it.kind in ('Vec', 'array'):
+        return list(it.fields)       # an IntoIterator value used where an iterator is expected (flat_map closures)
     raise Unsupported('iter_items of ' + it.kind)
 
 
@@ -1738,6 +1740,26 @@ def m_int_from(I, args, callee):
     raise Unsupported(callee)
 
 
+def m_int_try_from(I, args, callee):
+    """<T as TryFrom<U>>::try_from / <U as TryInto<T>>::try_into for primitive integers: Ok(value) iff it fits"""
+    a = args[0]
+    m = re.match(r'^<(\w+) as TryFrom<(\w+)>>::try_from$', callee) or re.match(r'^<(\w+) as TryInto<(\w+)>>::try_into$', callee)
+    from .values import INT_W
+    tgt = m.group(1) if 'TryFrom' in callee else m.group(2)
+    w = INT_W[tgt]
+    sg = tgt[0] == 'i'
+    lo, hi = (-(1 << (w - 1)), (1 << (w - 1)) - 1) if sg else (0, (1 << w) - 1)
+    if a.conc():
+        v = a.sval()
+        return ok(IntV(w, v, sg)) if lo <= v <= hi else err(Opaque('TryFromIntError'))
+    wide = max(a.w, w) + 1
+    ext = z3.SignExt(wide - a.w, a.v) if a.s else z3.ZeroExt(wide - a.w, a.v)
+    fits = z3.And(ext >= z3.BitVecVal(lo, wide), ext <= z3.BitVecVal(hi, wide))
+    if I.branch_bool(BoolV(fits)):
+        return ok(IntV(w, z3.Extract(w - 1, 0, ext), sg))
+    return err(Opaque('TryFromIntError'))
+
+
 def m_int_cmp(I, args, callee):
     a, b = I.deref(args[0]), I.deref(args[1])
     if isinstance(a, Agg) and len(a.fields) == 1:
@@ -1925,6 +1947,7 @@ MODELS = [
     (r'^(std::)?cmp::min::<|^<[ui](8|16|32|64|size) as Ord>::min$|^min::<[ui]', m_int_min),
     (r'^(std::)?cmp::max::<|^<[ui](8|16|32|64|size) as Ord>::max$|^max::<[ui]', m_int_max),
     (r'^<[ui](8|16|32|64|size) as From<(bool|[ui](8|16|32|64|size))>>::from$', m_int_from),
+    (r'^<[ui](8|16|32|64|size) as TryFrom<[ui](8|16|32|64|size)>>::try_from$|^<[ui](8|16|32|64|size) as TryInto<[ui](8|16|32|64|size)>>::try_into$', m_int_try_from),
     (r'^<[ui](8|16|32|64|size) as (Ord|PartialOrd)>::(cmp|partial_cmp)$', m_int_cmp),
     (r'^<.* as Iterator>::filter_map::', m_iter_filter_map),
     (r'^<.* as Iterator>::filter::', m_iter_filter),
